@@ -4,7 +4,7 @@ from __future__ import annotations
 
 import ast
 
-from .smt import (T, INT, BOOL, REAL, SEQI, TRUE, FALSE, I, And, Or, Not, Eq, Ne, Lt, Le, Add, Sub, Neg, Ite, Implies,
+from .smt import (T, INT, BOOL, REAL, SEQI, TRUE, FALSE, I, And, Or, Not, Eq, Ne, Lt, Le, Gt, Add, Sub, Neg, Ite, Implies,
                   seq_len, seq_concat, seq_unit, seq_empty, is_lit, lit_val)
 from .state import State, Out, Unsupported, Frame
 from .values import *
@@ -429,6 +429,13 @@ class CallMixin:
                 st = self.oblige(st, Not(v.isnone), "pre", f"{c.qualname}:arg-{n}-not-None", meta={"where": where})
                 v = v.inner
             v = self.coerce(st, v, kind)
+            if isinstance(kind, KRef) and isinstance(v, VRef):
+                ci, ck = self.try_cls(v.cls), self.try_cls(kind.cls.rstrip("!"))
+                if ci is not None and ck is not None and ci is not ck and ck.is_subclass_of(ci):
+                    # downcast: the argument must be an instance of the parameter's class (checked, not assumed)
+                    st = self.oblige(st, self.is_instance_term(st, v.t, ck.name), "pre",
+                                     f"{c.qualname}:arg-{n}-is-{ck.name}", meta={"where": where})
+                    v = VRef(v.t, ck.name)
             if isinstance(kind, KOpt) and not isinstance(kind.inner, KNone):
                 # give spec expressions a well-kinded value in both cases
                 if v is VNone:
@@ -642,8 +649,14 @@ class CallMixin:
         g = e.generators[0]
 
         def got_iter(s2, it):
+            if it is VNone or isinstance(it, VOpt):
+                return self.split_opt(s2, it, lambda s_: self.raise_(s_, "TypeError", f"iteration over None at line {e.lineno}"),
+                                      lambda s_, inner: got_iter(s_, inner))
             items = self.static_items_of(s2, it)
             if items is None:
+                if not g.ifs and not (isinstance(e.elt, ast.Name) and isinstance(g.target, ast.Name)
+                                      and e.elt.id == g.target.id):
+                    return self.listcomp_map(s2, e, g, it, k)
                 return self.listcomp_filter(s2, e, g, it, k)
             saved = dict(s2.locals)
 
@@ -723,13 +736,51 @@ class CallMixin:
         c = self.comp_cond(st, g, from_comps(ek, [w]))
         st.pc.append(Eq(seq_contains_elem(res, w), And(seq_contains_elem(t, w), c)))
 
+    def listcomp_map(self, st, e, g, it, k):
+        """[f(x) for x in xs] over a symbolic sequence: a new list of the same length whose elements are arbitrary values
+        of f's result kind (over-approximation); f is evaluated once on an arbitrary element, its exceptional outcomes
+        become exceptional outcomes of the comprehension"""
+        t, ek = self.as_seq(st, it)
+        arb = self.fresh_value(st, ek, "comp_elem")
+        saved = dict(st.locals)
+        outs = []
+
+        def got_elt(s3, v):
+            s4 = s3.copy()
+            s4.locals = dict(saved)
+            v = self.unwrap_strict(v)
+            rk = v.kind
+            res = self.decls.fresh(f"map_L{e.lineno}", f"(Seq {elem_sort(rk)})")
+            s4.pc.append(Eq(seq_len(res), seq_len(t)))
+            s5, lst = self.new_list(s4, rk, res)
+            return k(s5, lst)
+        for a in self.assign(st.assume(Gt(seq_len(t), I(0))), g.target, arb):
+            if a.kind != "ok":
+                outs.append(a)
+                continue
+            outs += self.ev(a.st, e.elt, got_elt)
+        # the empty input: an empty list of an unknown element kind -> use the same path with length 0
+        s0 = st.assume(Eq(seq_len(t), I(0)))
+        for a in self.assign(s0, g.target, arb):
+            if a.kind == "ok":
+                for o in self.ev(a.st, e.elt, got_elt):
+                    if o.kind != "exc":
+                        outs.append(o)
+        return outs
+
     def listcomp_filter(self, st, e, g, it, k):
         """[x for x in xs if cond(x)] over a symbolic sequence: result = filter_c(xs) (uninterpreted, defined by snoc
         recursion) with the membership characterisation instantiated for every witness in scope and for the first
         elements of the result (lemma filter-membership, proved separately by induction)."""
         if not (isinstance(e.elt, ast.Name) and isinstance(g.target, ast.Name) and e.elt.id == g.target.id):
             raise Unsupported(f"comprehension with a computed element at line {e.lineno}")
-        t, ek = self.as_seq(st, it)
+        if isinstance(it, VPy) and it.what == "dictview" and it.extra == "values":
+            # the values of a table in an unspecified order: an arbitrary sequence of values of the table's value kind
+            # (over-approximation: membership in the table is not stated)
+            ek = it.obj.v
+            t = self.decls.fresh("dictvalues", f"(Seq {elem_sort(ek)})")
+        else:
+            t, ek = self.as_seq(st, it)
         es = elem_sort(ek)
         self.comp_counter = getattr(self, "comp_counter", 0) + 1
         fname = f"filter_L{e.lineno}_{self.comp_counter}"
